@@ -370,6 +370,35 @@ func ruleR16_5(r *Run) {
 	}
 	r.check(n > 0 && bad == "", "getMemDBbyVersion:head-db-only-for-head-version", "a head database is read only on the 'version is the branch head' edge",
 		"a head database can be returned for a version that is not the branch head: a committed parent is served from (and written into) the head copy", bad)
+	// every database handed out comes from the pinned-version table or from the head table (read on the
+	// edge above): no other cache of version → database may answer, since nothing would move it when the
+	// branch head moves
+	okOrigin := true
+	badOrigin := ""
+	for _, b := range f.Blocks {
+		ret, ok := b.Instrs[len(b.Instrs)-1].(*ssa.Return)
+		if !ok || len(ret.Results) == 0 {
+			continue
+		}
+		for _, rt := range roots(ret.Results[0], f) {
+			v := rt.V
+			if ex, ok := v.(*ssa.Extract); ok {
+				v = ex.Tuple
+			}
+			switch x := v.(type) {
+			case *ssa.Const:
+				continue
+			case *ssa.Lookup:
+				if isFieldLoad(x.X, "memdbs", "head") || isFieldLoad(x.X, "memdbs", "static") {
+					continue
+				}
+			}
+			okOrigin = false
+			badOrigin = w.pos(ret.Pos())
+		}
+	}
+	r.check(okOrigin, "getMemDBbyVersion:database-from-static-or-head-table", "every returned database is read from the pinned-version table or the head table",
+		"getMemDBbyVersion can answer from another cache of version → database (e.g. a memo of earlier answers): after a commit and a new version the committed parent keeps being served from, and written into, the head's in-memory copy", firstNonEmpty(badOrigin, w.fpos(f)))
 	// the error of GetBranchHead must be nil on that edge
 	// loader decodes with the typed annotation type
 	for _, g := range njFuncs(w) {
